@@ -88,6 +88,14 @@ def handler_prog(target, err=False):
             "meta": {"handler": [target, err]}, "seq": [{"k": "step", "fn": {"ret": 1}}], "ret": ret}
 
 
+def handler_via_step_prog(target, where):
+    """The final error is the SDK's own error for a failed step / child context whose message is about `target` characters."""
+    failing = {"k": "step", "fn": {"raise": "Boom", "msg_pad": target}, "retry": "none"}
+    seq = [failing] if where == "step" else [{"k": "child", "body": [{"k": "step", "fn": {"ret": 1}}, failing]}]
+    return {"name": f"handler[error via failed {where}~{target - RESP_SDK:+d}]", "meta": {"handler": [target, True], "approx": True},
+            "seq": seq}
+
+
 def programs(tier):
     out = []
     for target in (LIMIT - 1, LIMIT, LIMIT + 1, 300_000):
@@ -113,6 +121,8 @@ def programs(tier):
         out.append(handler_prog(target, False))
     for target in (RESP_SDK - 1, RESP_SDK + 1, RESP_HARD + 1):
         out.append(handler_prog(target, True))
+    out.append(handler_via_step_prog(RESP_HARD + 2000, "step"))
+    out.append(handler_via_step_prog(RESP_HARD + 2000, "child"))
     return out
 
 
